@@ -420,11 +420,11 @@ def _py_int(x=0, base=None):
             prev_digit = False
             for i, ch in enumerate(body):
                 if ch == "_":
-                    if not prev_digit or i + 1 >= len(body) or not ("0" <= body[i + 1] <= "9"):
+                    if not prev_digit or i + 1 >= len(body) or not (48 <= ord(body[i + 1]) <= 57):
                         raise ValueError("invalid literal for int() with base 10")
                     prev_digit = False
                 else:
-                    prev_digit = "0" <= ch <= "9"
+                    prev_digit = 48 <= ord(ch) <= 57
             return lbytes.l_int(lbytes.LBytes(s.replace("_", "")))
     return lbytes.l_int(x, base)
 
@@ -452,7 +452,7 @@ def _strip(cs):
 
 
 def _isdig(ch):
-    return "0" <= ch <= "9"
+    return 48 <= ord(ch) <= 57
 
 
 def _ref_num(cs):
@@ -556,7 +556,7 @@ def parse(shape: int, a: str, bb: str, c: str, d: str, junk: str, pos: int) -> b
     """
     pre: 0 <= shape < 7 and 0 <= pos
     pre: len(a) <= 3 and len(bb) <= 3 and len(c) <= 3 and len(d) <= 3 and len(junk) <= 1
-    pre: all("0" <= ch <= "9" for ch in a + bb + c + d)
+    pre: all(48 <= ord(ch) <= 57 for ch in a + bb + c + d)
     pre: all(ord(ch) < 256 for ch in junk)
     post: _
     """
